@@ -97,6 +97,12 @@ class Blocked(Exception):
     bound: it is blocked on a real lock held by a parked task.  Harness-level: INCONCLUSIVE."""
 
 
+class Deadlock(Blocked):
+    """Every live task waits for a lock created by library code that no runnable task can release: with real threads
+    this schedule hangs for good.  Unlike a watchdog timeout (a real lock of the stdlib / harness held by a parked task)
+    this is behaviour of the system under test."""
+
+
 class Task:
     def __init__(self, tid, fn):
         self.tid = tid
@@ -365,7 +371,8 @@ class Scheduler:
             runnable = self._runnable()
             if not runnable:
                 if self.deadlock or any(not t.done for t in self.tasks.values()):
-                    raise Blocked("deadlock: every live task waits for a lock held by another")
+                    raise Deadlock("every live task waits for a library lock: " +
+                                   ", ".join("task %s" % t.tid for t in self.tasks.values() if not t.done))
                 break
             if self._pending is not None and self._pending in runnable:
                 nxt = self._pending
